@@ -204,10 +204,28 @@ def addElems (s : KState) (g : String) (xs : List ElemIn) : KState × Res :=
   let s2 := if anyOk then s1.touch g else s1
   (s2, if anyErr then .err else .ok)
 
+/-- `deleteGraphData`: the four prefix deletes (edges, vertices, by-source, by-destination) and
+    deleteGraphIndex (every persisted field whose first component is the graph name: term prefix,
+    entry prefix, field key; and the in-memory registration).  DeleteGraph runs it after deleting the
+    graph key; AddGraph runs it for a name that is not listed, so that a new graph does not inherit
+    what an interrupted DeleteGraph left behind. -/
+def sweepGraph (s : KState) (g : String) : KState :=
+  let m := s.kv.delWhere (fun k => match k with | .edge g' _ _ _ _ => g' = g | _ => false)
+  let m := m.delWhere (fun k => match k with | .vertex g' _ => g' = g | _ => false)
+  let m := m.delWhere (fun k => match k with | .src g' _ _ _ _ => g' = g | _ => false)
+  let m := m.delWhere (fun k => match k with | .dst g' _ _ _ _ => g' = g | _ => false)
+  let fs := (m.filterMap (fun p => match p.1 with | .field f => some f | _ => none)).filter (fun f => fieldGraph f = g)
+  let m := fs.foldl (fun m f =>
+    ((m.delWhere (fun k => match k with | .term f' _ => f' = f | _ => false)).delWhere
+      (fun k => match k with | .entry f' _ _ => f' = f | _ => false)).del (.field f)) m
+  { s with kv := m, fields := s.fields.filter (fun f => !fs.contains f) }
+
 def step (s : KState) : Op → KState × Res
   | .addGraph g =>
     if !validName g then (s, .err) else
-    -- Touch, setupGraphIndex (two AddField: memory + field key), Set(graph key)
+    -- not listed: deleteGraphData first (after `fix: AddGraph starts from an empty graph`);
+    -- then Touch, setupGraphIndex (two AddField: memory + field key), Set(graph key)
+    let s := if hasGraph s g then s else sweepGraph s g
     let s := s.touch g
     let fs := [labelField g "v", labelField g "e"]
     let s := { s with fields := fs ++ s.fields.filter (fun f => !fs.contains f),
